@@ -26,9 +26,9 @@ static void buildLone(RandSystem& rs, Rng& r, int nb) {
 }
 int main(int argc, char** argv) {
     unsigned long long seed = std::strtoull(argv[1], 0, 10); int nsys = std::atoi(argv[2]); int maxb = argc > 3 ? std::atoi(argv[3]) : 8;
-    Rng r(seed);
+    Rng r(seed); Rng ropt(seed ^ 0x5bd1e995ULL);   // separate stream for the mobilizer options (Screw pitch, Ellipsoid radii, SphericalCoords offsets/signs/axis)
     for (int k = 0; k < nsys; ++k) {
-        RandSystem rs; int nb = r.I(1, maxb); int shape = r.I(0, 2);
+        RandSystem rs; rs.optRng = &ropt; int nb = r.I(1, maxb); int shape = r.I(0, 2);
         try { if (k % 10 == 9) buildLone(rs, r, nb); else rs.build(r, nb, shape); } catch (const std::exception& e) { std::printf("SKIP %s\n", e.what()); continue; }
         State& s = rs.state; const SimbodyMatterSubsystem& m = rs.matter;
         // wider coordinates than the default generator: angles in +-[0.1,1.2] (|cos q1| > 0.36), then renormalise quaternions
@@ -45,10 +45,8 @@ int main(int argc, char** argv) {
             int bq = mb.getNumQ(s), bu = mb.getNumU(s);
             std::printf("BODY %d %d %d %d %d %d %d %d", (int)b, (int)mb.getParentMobilizedBody().getMobilizedBodyIndex(), ty, (int)rs.revs[b - 1],
                         bq ? (int)mb.getFirstQIndex(s) : 0, bq, bu ? (int)mb.getFirstUIndex(s) : 0, bu);
-            if (ty == 11) std::printf(" 1 %a", 0.3);
-            else if (ty == 12) std::printf(" 3 %a %a %a", 0.5, 0.7, 0.9);
-            else if (ty == 15) std::printf(" 6 %a %a %a %a %a %a", 0.0, 1.0, 0.0, 1.0, -1.0, 1.0);
-            else std::printf(" 0");
+            { const std::vector<Real> par = (size_t)(b - 1) < rs.pars.size() ? rs.pars[b - 1] : defaultPars(ty);
+              std::printf(" %d", (int)par.size()); for (size_t c = 0; c < par.size(); ++c) std::printf(" %a", par[c]); }
             pXf(mb.getInboardFrame(s)); pXf(mb.getOutboardFrame(s)); std::printf("\n");
         }
         pvec("Q", s.getQ()); pvec("U", s.getU());
